@@ -186,12 +186,13 @@ def specialComment (line : String) : Outcome (Option Comment) :=
 
 def ignorePath (fb : FactBase) (path : String) : Bool := fb.pfx != "" && !path.startsWith fb.pfx
 
-/-- `fetchStructComments`: the doc group found one byte before the type name — the doc of the
-declaration for `type T struct`, the doc of the whole group inside `type ( … )`. -/
+/-- `fetchStructComments` (after the repair): the doc comment of the type's own declaration —
+the doc of the `type T struct` declaration, or of the member's own specification inside
+`type ( … )`.  (At the pinned commit the doc of the whole group was used: `tf.groupDoc`.) -/
 def structComments (fb : FactBase) (tf : TypeFact) : Outcome (List Comment) :=
   if ignorePath fb tf.pkgPath then .ok [] else
   if !(fb.pkgs.any (·.path == tf.pkgPath)) then .diag ("package " ++ tf.pkgPath ++ " not found") else
-  let lines := if tf.grouped then tf.groupDoc else tf.doc
+  let lines := tf.doc
   match Outcome.mapM' specialComment lines with
   | .ok cs => .ok (cs.filterMap id)
   | .diag m => .diag m
